@@ -97,7 +97,7 @@ func c15R1(c *Ctx, id string) {
 				ok := false
 				detail := "seq is not b.Sequence()"
 				if sc, isCall := args[4].(*ssa.Call); isCall && calleeOf(sc).Name() == "bbolt.(*Bucket).Sequence" {
-					ok = sc.Call.Args[0] == args[0]
+					ok = sameValue(sc.Call.Args[0], args[0])
 					if !ok {
 						detail = "Sequence() is taken from a different bucket than the one reported"
 					}
@@ -111,8 +111,8 @@ func c15R1(c *Ctx, id string) {
 		okF := false
 		eachInstr(wb, func(in ssa.Instruction) {
 			if call, ok := in.(*ssa.Call); ok {
-				if p, isP := call.Call.Value.(*ssa.Parameter); isP && p.Name() == "fn" && len(call.Call.Args) == 4 {
-					if sp, isP2 := call.Call.Args[3].(*ssa.Parameter); isP2 && sp.Name() == "seq" {
+				if p, isP := resolveCell(call.Call.Value).(*ssa.Parameter); isP && p.Name() == "fn" && len(call.Call.Args) == 4 {
+					if sp, isP2 := resolveCell(call.Call.Args[3]).(*ssa.Parameter); isP2 && sp.Name() == "seq" {
 						okF = true
 					}
 				}
@@ -339,7 +339,7 @@ func c15R4(c *Ctx, id string) {
 			// the callback's error
 			eachInstr(fn, func(in ssa.Instruction) {
 				if call, ok := in.(*ssa.Call); ok {
-					if p, isP := call.Call.Value.(*ssa.Parameter); isP && p.Name() == "fn" {
+					if p, isP := resolveCell(call.Call.Value).(*ssa.Parameter); isP && p.Name() == "fn" {
 						m := errorHandled(call)
 						c.check(id+":"+shortFn(fn)+":callback-error", fn, call.Pos(), "walkBucket returns the callback's error", m == "", m)
 					}
